@@ -489,9 +489,9 @@ pub trait BackendTransaction {
                             */
                             IdList::Indexed(r)
                         }
-                        (IdList::Indexed(ia), IdList::Partial(ib))
-                        | (IdList::Partial(ia), IdList::Indexed(ib))
-                        | (IdList::Partial(ia), IdList::Partial(ib)) => {
+                        // The negated term is exactly resolved, so it is safe to remove its
+                        // ids from the (superset) candidates.
+                        (IdList::Partial(ia), IdList::Indexed(ib)) => {
                             let r = ia.andnot(ib);
                             // DO trigger threshold on partials, because we have to apply the filter
                             // test anyway, so we may as well shortcut at this point.
@@ -502,14 +502,32 @@ pub trait BackendTransaction {
                                 IdList::Partial(r)
                             }
                         }
-                        (IdList::Indexed(ia), IdList::PartialThreshold(ib))
-                        | (IdList::PartialThreshold(ia), IdList::Indexed(ib))
-                        | (IdList::PartialThreshold(ia), IdList::PartialThreshold(ib))
-                        | (IdList::PartialThreshold(ia), IdList::Partial(ib))
-                        | (IdList::Partial(ia), IdList::PartialThreshold(ib)) => {
+                        (IdList::PartialThreshold(ia), IdList::Indexed(ib)) => {
                             let r = ia.andnot(ib);
-                            // DO trigger threshold on partials, because we have to apply the filter
-                            // test anyway, so we may as well shortcut at this point.
+                            if r.below_threshold(thres) && f_rem_count > 0 {
+                                let setplan = FilterPlan::AndPartialThreshold(plan);
+                                return Ok((IdList::PartialThreshold(r), setplan));
+                            } else {
+                                IdList::PartialThreshold(r)
+                            }
+                        }
+                        // The negated term is only resolved to a superset of the entries it
+                        // matches. Removing that superset would also remove entries that do
+                        // NOT match the negated term (and so must be returned). Keep the
+                        // candidates and let the entry filter test decide.
+                        (IdList::Indexed(r), IdList::Partial(_))
+                        | (IdList::Partial(r), IdList::Partial(_)) => {
+                            if r.below_threshold(thres) && f_rem_count > 0 {
+                                let setplan = FilterPlan::AndPartialThreshold(plan);
+                                return Ok((IdList::PartialThreshold(r), setplan));
+                            } else {
+                                IdList::Partial(r)
+                            }
+                        }
+                        (IdList::Indexed(r), IdList::PartialThreshold(_))
+                        | (IdList::PartialThreshold(r), IdList::PartialThreshold(_))
+                        | (IdList::PartialThreshold(r), IdList::Partial(_))
+                        | (IdList::Partial(r), IdList::PartialThreshold(_)) => {
                             if r.below_threshold(thres) && f_rem_count > 0 {
                                 let setplan = FilterPlan::AndPartialThreshold(plan);
                                 return Ok((IdList::PartialThreshold(r), setplan));
@@ -675,8 +693,15 @@ pub trait BackendTransaction {
 
         trace!(filter_optimised = ?filt);
 
-        let (idl, fplan) = trace_span!("be::search -> filter2idl")
-            .in_scope(|| self.filter2idl(filt.to_inner(), FILTER_SEARCH_TEST_THRESHOLD))?;
+        let (idl, fplan) = if filt.to_inner().has_unguarded_andnot() {
+            // An AndNot that is not combined with a positive term in an And can not be
+            // resolved to a candidate set (filter2idl resolves it as empty), so the
+            // candidates would miss entries that match. Every entry must be tested.
+            (IdList::AllIds, FilterPlan::Invalid)
+        } else {
+            trace_span!("be::search -> filter2idl")
+                .in_scope(|| self.filter2idl(filt.to_inner(), FILTER_SEARCH_TEST_THRESHOLD))?
+        };
 
         debug!(search_filter_executed_plan = %fplan);
 
@@ -771,8 +796,13 @@ pub trait BackendTransaction {
 
         // Using the indexes, resolve the IdList here, or AllIds.
         // Also get if the filter was 100% resolved or not.
-        let (idl, fplan) = trace_span!("be::exists -> filter2idl")
-            .in_scope(|| self.filter2idl(filt.to_inner(), FILTER_EXISTS_TEST_THRESHOLD))?;
+        let (idl, fplan) = if filt.to_inner().has_unguarded_andnot() {
+            // See search - the candidate set can not be resolved, test every entry.
+            (IdList::AllIds, FilterPlan::Invalid)
+        } else {
+            trace_span!("be::exists -> filter2idl")
+                .in_scope(|| self.filter2idl(filt.to_inner(), FILTER_EXISTS_TEST_THRESHOLD))?
+        };
 
         debug!(exist_filter_executed_plan = %fplan);
 
